@@ -1401,6 +1401,8 @@ func TestC07(t *testing.T) {
 	cases := genCases(t, "C07", true)
 	writeHistories(t, "C07", cases, "cc_bad07", "cc_nontriv07")
 	if ReplayFile() == "" {
-		writeDirect(t, "C07", false)
+		// the in-flight record the filters read lives in the same cache: a record lost to the collector releases work that
+		// is still in flight, so the collector races belong to C07 as much as to C06
+		writeDirect(t, "C07", true)
 	}
 }
